@@ -183,20 +183,28 @@ def rule_pass(ctx):
     vis = list(calls(fn["body"], "visit_statement"))
     okv = len(vis) == 1 and all(c[0] in ("loop", "closure") or "definition_type" in fact_str(c) for c in (conditions_to(fn["body"], vis[0]) or []))
     ctx.check(R, "find_signal_assignments/visit-unconditional", okv, "", site(SA, fn))
-    # reports
-    rl = [l for l in loops if "get_assignments()" in render(l["iter"])]
-    if len(rl) != 1:
-        ctx.bad(R, "find_signal_assignments/report-loop", "expected one loop over the recorded assignments", site(SA, fn))
+    # reports: the code run once per recorded assignment builds exactly one report on every way through it, from that
+    # record's own signal, access and location, and every one of them is kept
+    from astlib import inline_helpers, simplify_body
+
+    fni = inline_helpers(fn, SA, exclude=("visit_statement", "build_assignment_report", "build_unecessary_assignment_report", "get_assignments", "get_constraint_metas", "get_constraints", "add_assignment", "add_constraint"))
+    recs = sgrep.per_record(fni["body"], "__u.get_assignments()")
+    if len(recs) != 1:
+        ctx.bad(R, "find_signal_assignments/report-loop", "expected one piece of code run per recorded assignment, found %d" % len(recs), site(SA, fn))
     else:
-        paths_pushes = list(method_calls(rl[0]["body"], "push"))
-        per_path = [sum(1 for a_ in atoms for x in walk(a_) if x["k"] == "MethodCall" and x["method"] == "push") for _c, atoms, _e in enumerate_paths(rl[0]["body"])]
-        ok = len(paths_pushes) >= 2 and bool(per_path) and all(n_ == 1 for n_ in per_path)
-        ctx.check(R, "find_signal_assignments/one-report-per-record", ok, "exactly one push on every way through the report loop; pushes per path: %s" % per_path, site(SA, rl[0]))
-        ex = [x for x in walk(rl[0]["body"]) if x["k"] in ("Continue", "Break", "Return")]
-        ctx.check(R, "find_signal_assignments/no-record-skipped", not ex, "%d early exits in the report loop" % len(ex), site(SA, rl[0]))
-        for p in paths_pushes:
-            a = render(p["args"][0]).replace(" ", "")
-            ctx.check(R, "find_signal_assignments/report-anchored-at-the-assignment[%s]" % a.split("(")[0], "&assignment.signal,&assignment.access,&assignment.meta" in a, a[:120], site(SA, p))
+        var, rbody, how, produced = recs[0]
+        rb = simplify_body(rbody) if rbody["k"] == "Block" else {"k": "Block", "line": 0, "stmts": [{"k": "ExprStmt", "line": 0, "e": rbody, "semi": False}]}
+        is_builder = lambda x: x["k"] == "Call" and x["func"]["k"] == "Path" and last(x["func"]["path"]) in ("build_assignment_report", "build_unecessary_assignment_report")
+        per_path = [sum(1 for a_ in atoms for x in walk(a_) if is_builder(x)) for _c, atoms, _e in enumerate_paths(rb)]
+        builders = [x for x in walk(rb) if is_builder(x)]
+        kept = produced or all(any(m_["k"] == "MethodCall" and m_["method"] == "push" and any(y is b_ for y in walk(m_)) for m_ in walk(rb)) for b_ in builders)
+        ok = len(builders) >= 2 and bool(per_path) and all(n_ == 1 for n_ in per_path) and kept
+        ctx.check(R, "find_signal_assignments/one-report-per-record", ok, "exactly one report on every way through the per-assignment code (%s); reports per path: %s; kept: %s" % (how, per_path, kept), site(SA, fn))
+        ex = [x for x in walk(rb) if x["k"] in ("Continue", "Break", "Return")]
+        ctx.check(R, "find_signal_assignments/no-record-skipped", not ex, "%d early exits in the per-assignment code" % len(ex), site(SA, fn))
+        for p in builders:
+            a = [render(strip(x)).replace(" ", "") for x in p["args"][:3]]
+            ctx.check(R, "find_signal_assignments/report-anchored-at-the-assignment[%s]" % last(p["func"]["path"]), a == ["%s.signal" % var, "%s.access" % var, "%s.meta" % var], str(a), site(SA, p))
     for b, st in (("build_assignment_report", "SignalAssignmentWarning"), ("build_unecessary_assignment_report", "UnecessarySignalAssignmentWarning")):
         f = find_fn(SA, b)
         if f is not None:
